@@ -23,6 +23,9 @@ func (vm *VM) bigGet(v Value, what string) *smt.Term {
 	if !ok {
 		vmErr("%s: cell does not hold a big.Int: %s", what, describe(*p))
 	}
+	if b.Buf != nil && b.Ver < b.Buf.ver {
+		vm.aliasHazard(what, b)
+	}
 	if b.T == nil && b.Lazy != nil {
 		n, d := vm.ratNormalize(RatVal{b.Lazy.N, b.Lazy.D})
 		if b.Lazy.Num {
@@ -33,6 +36,41 @@ func (vm *VM) bigGet(v Value, what string) *smt.Term {
 		*p = BigVal{T: b.T}
 	}
 	return b.T
+}
+
+// aliasHazard: a big.Int value is read whose backing array has since been written
+// through another shallow copy of the same struct. In real Go the read may see
+// the other value (when the array's capacity sufficed, i.e. for multi-word
+// numbers). The VM keeps value semantics; the hazard is recorded with a model
+// that prefers numbers >= 2^64 and is decided by the native replay.
+func (vm *VM) aliasHazard(what string, b BigVal) {
+	if vm.ConcreteValues != nil || vm.hazardSeen {
+		return
+	}
+	vm.hazardSeen = true
+	site := "?"
+	if len(vm.stack) > 0 {
+		site = vm.stack[len(vm.stack)-1]
+	}
+	big64 := smt.Int(pow2(64))
+	pref := smt.True
+	if b.T != nil && b.T.Op != smt.OpIntConst {
+		pref = smt.Le(big64, b.T)
+	}
+	var model map[string]string
+	vm.Solver.Push()
+	vm.Solver.Assert(pref)
+	if vm.Solver.Check() == smt.Sat {
+		model = vm.modelStrings()
+		vm.Solver.Pop()
+	} else {
+		vm.Solver.Pop()
+		if vm.Solver.Check() != smt.Sat {
+			return
+		}
+		model = vm.modelStrings()
+	}
+	vm.recordFinding("hazard", "shared-big.Int-storage read in "+site, "a big.Int is read after its backing array was written through a shallow copy ("+what+")", model, append([]string{}, vm.stack...))
 }
 
 // lazyPart returns the not-yet-normalised numerator/denominator information of a cell, if any.
@@ -56,7 +94,26 @@ func (vm *VM) ratGet(v Value, what string) RatVal {
 	return r
 }
 
-func (vm *VM) newBig(t *smt.Term) *Value { return vm.newCell(BigVal{T: t}) }
+func (vm *VM) newBig(t *smt.Term) *Value {
+	return vm.newCell(BigVal{T: t, Buf: &bigBuf{}})
+}
+
+// bigStore is the result store of a big.Int operation: like math/big it writes
+// into the receiver's backing array when the receiver has one (shared with every
+// shallow copy of it), else allocates a new one.
+func (vm *VM) bigStore(z *Value, t *smt.Term) {
+	cur, _ := (*z).(BigVal)
+	buf := cur.Buf
+	if buf == nil {
+		buf = &bigBuf{}
+	} else if !(t.Op == smt.OpIntConst && t.K.Sign() == 0) {
+		// a non-empty result overwrites the words of the shared array
+		old := buf.ver
+		vm.undo = append(vm.undo, undoEntry{f: func() { buf.ver = old }})
+		buf.ver++
+	}
+	vm.store(z, BigVal{T: t, Buf: buf, Ver: buf.ver})
+}
 
 // divisorsDesc lists the positive divisors of d, largest first (d small).
 func divisorsDesc(d *big.Int) []*big.Int {
@@ -175,7 +232,7 @@ func registerBig(vm *VM) {
 			z := vm.bigPtr(a[0], name)
 			x := vm.bigGet(a[1], name)
 			y := vm.bigGet(a[2], name)
-			vm.store(z, BigVal{T: f(x, y)})
+			vm.bigStore(z, (f(x, y)))
 			return z
 		}
 	}
@@ -185,7 +242,7 @@ func registerBig(vm *VM) {
 		z := vm.bigPtr(a[0], "Mul")
 		x := vm.bigGet(a[1], "Mul")
 		y := vm.bigGet(a[2], "Mul")
-		vm.store(z, BigVal{T: vm.mulTerms(x, y, "Int.Mul")})
+		vm.bigStore(z, (vm.mulTerms(x, y, "Int.Mul")))
 		return z
 	}
 	divmod := func(name string, mod bool) {
@@ -193,7 +250,7 @@ func registerBig(vm *VM) {
 			z := vm.bigPtr(a[0], name)
 			// floor(Num/Denom) of one rational does not depend on the common factor
 			if lx, ly := lazyPart(a[1]), lazyPart(a[2]); !mod && lx != nil && ly != nil && lx.Num && !ly.Num && lx.N == ly.N && lx.D == ly.D {
-				vm.store(z, BigVal{T: smt.Div(lx.N, lx.D)})
+				vm.bigStore(z, (smt.Div(lx.N, lx.D)))
 				return z
 			}
 			x := vm.bigGet(a[1], name)
@@ -202,9 +259,9 @@ func registerBig(vm *VM) {
 				vm.goPanic("division by zero")
 			}
 			if mod {
-				vm.store(z, BigVal{T: smt.Mod(x, y)})
+				vm.bigStore(z, (smt.Mod(x, y)))
 			} else {
-				vm.store(z, BigVal{T: smt.Div(x, y)})
+				vm.bigStore(z, (smt.Div(x, y)))
 			}
 			return z
 		}
@@ -225,39 +282,39 @@ func registerBig(vm *VM) {
 			vmErr("big.Int.Exp on symbolic operands")
 		}
 		if y.K.Sign() <= 0 {
-			vm.store(z, BigVal{T: smt.Int64(1)})
+			vm.bigStore(z, (smt.Int64(1)))
 			return z
 		}
 		if y.K.BitLen() > 16 {
 			vmErr("big.Int.Exp exponent too large")
 		}
-		vm.store(z, BigVal{T: smt.Int(new(big.Int).Exp(x.K, y.K, nil))})
+		vm.bigStore(z, (smt.Int(new(big.Int).Exp(x.K, y.K, nil))))
 		return z
 	}
 	I["(*math/big.Int).Neg"] = func(vm *VM, _ *frame, a []Value) Value {
 		z := vm.bigPtr(a[0], "Neg")
-		vm.store(z, BigVal{T: smt.Neg(vm.bigGet(a[1], "Neg"))})
+		vm.bigStore(z, (smt.Neg(vm.bigGet(a[1], "Neg"))))
 		return z
 	}
 	I["(*math/big.Int).Abs"] = func(vm *VM, _ *frame, a []Value) Value {
 		z := vm.bigPtr(a[0], "Abs")
 		x := vm.bigGet(a[1], "Abs")
-		vm.store(z, BigVal{T: smt.Ite(smt.Lt(x, smt.Int64(0)), smt.Neg(x), x)})
+		vm.bigStore(z, (smt.Ite(smt.Lt(x, smt.Int64(0)), smt.Neg(x), x)))
 		return z
 	}
 	I["(*math/big.Int).Set"] = func(vm *VM, _ *frame, a []Value) Value {
 		z := vm.bigPtr(a[0], "Set")
-		vm.store(z, BigVal{T: vm.bigGet(a[1], "Set")})
+		vm.bigStore(z, (vm.bigGet(a[1], "Set")))
 		return z
 	}
 	I["(*math/big.Int).SetInt64"] = func(vm *VM, _ *frame, a []Value) Value {
 		z := vm.bigPtr(a[0], "SetInt64")
-		vm.store(z, BigVal{T: intToTerm(a[1], 64, true)})
+		vm.bigStore(z, (intToTerm(a[1], 64, true)))
 		return z
 	}
 	I["(*math/big.Int).SetUint64"] = func(vm *VM, _ *frame, a []Value) Value {
 		z := vm.bigPtr(a[0], "SetUint64")
-		vm.store(z, BigVal{T: intToTerm(a[1], 64, false)})
+		vm.bigStore(z, (intToTerm(a[1], 64, false)))
 		return z
 	}
 	I["(*math/big.Int).Cmp"] = func(vm *VM, _ *frame, a []Value) Value {
@@ -305,21 +362,21 @@ func registerBig(vm *VM) {
 	I["(*math/big.Int).Quo"] = func(vm *VM, _ *frame, a []Value) Value {
 		z := vm.bigPtr(a[0], "Quo")
 		q, _ := truncDiv(vm, vm.bigGet(a[1], "Quo"), vm.bigGet(a[2], "Quo"))
-		vm.store(z, BigVal{T: q})
+		vm.bigStore(z, (q))
 		return z
 	}
 	I["(*math/big.Int).Rem"] = func(vm *VM, _ *frame, a []Value) Value {
 		z := vm.bigPtr(a[0], "Rem")
 		_, r := truncDiv(vm, vm.bigGet(a[1], "Rem"), vm.bigGet(a[2], "Rem"))
-		vm.store(z, BigVal{T: r})
+		vm.bigStore(z, (r))
 		return z
 	}
 	I["(*math/big.Int).QuoRem"] = func(vm *VM, _ *frame, a []Value) Value {
 		z := vm.bigPtr(a[0], "QuoRem")
 		rp := vm.bigPtr(a[3], "QuoRem")
 		q, r := truncDiv(vm, vm.bigGet(a[1], "QuoRem"), vm.bigGet(a[2], "QuoRem"))
-		vm.store(z, BigVal{T: q})
-		vm.store(rp, BigVal{T: r})
+		vm.bigStore(z, (q))
+		vm.bigStore(rp, r)
 		return Tuple{z, rp}
 	}
 	I["(*math/big.Int).DivMod"] = func(vm *VM, _ *frame, a []Value) Value {
@@ -329,20 +386,20 @@ func registerBig(vm *VM) {
 		if vm.Truth(fromBoolTerm(smt.Eq(y, smt.Int64(0)))) {
 			vm.goPanic("division by zero")
 		}
-		vm.store(z, BigVal{T: smt.Div(x, y)})
-		vm.store(mp, BigVal{T: smt.Mod(x, y)})
+		vm.bigStore(z, (smt.Div(x, y)))
+		vm.bigStore(mp, smt.Mod(x, y))
 		return Tuple{z, mp}
 	}
 	I["(*math/big.Int).Lsh"] = func(vm *VM, _ *frame, a []Value) Value {
 		z := vm.bigPtr(a[0], "Lsh")
 		n := vm.concInt(a[2], "Lsh count")
-		vm.store(z, BigVal{T: smt.Mul(vm.bigGet(a[1], "Lsh"), smt.Int(pow2(n)))})
+		vm.bigStore(z, (smt.Mul(vm.bigGet(a[1], "Lsh"), smt.Int(pow2(n)))))
 		return z
 	}
 	I["(*math/big.Int).Rsh"] = func(vm *VM, _ *frame, a []Value) Value {
 		z := vm.bigPtr(a[0], "Rsh")
 		n := vm.concInt(a[2], "Rsh count")
-		vm.store(z, BigVal{T: smt.Div(vm.bigGet(a[1], "Rsh"), smt.Int(pow2(n)))})
+		vm.bigStore(z, (smt.Div(vm.bigGet(a[1], "Rsh"), smt.Int(pow2(n)))))
 		return z
 	}
 	I["(*math/big.Int).Text"] = func(vm *VM, _ *frame, a []Value) Value {
@@ -435,7 +492,7 @@ func registerBig(vm *VM) {
 		if !ok {
 			return Tuple{(*Value)(nil), false}
 		}
-		vm.store(z, BigVal{T: t})
+		vm.bigStore(z, (t))
 		return Tuple{z, true}
 	}
 
